@@ -85,9 +85,14 @@ def judgeS (method dim : Nat) (allowNull : Bool) (input : Option (List Rat))
     else if !(decide (rabs (rsum p - 1) ≤ tolFire dim)) then "FAIL:probs_sum_one"
     else
       let tol := match input with | some i => tolRound method dim i | none => tolFire dim
+      let fired := input.isNone
       match Simplex.probsOf (α := Rat) method dim θ with
       | some q =>
         if !(close tol p q) then "FAIL:probs_match_params"
+        -- exact tie, insensitive to the order of the floating-point operations: for the product
+        -- codings (1, 3), parameters k/16 and dimension ≤ 9 every intermediate result is a dyadic
+        -- number of at most 32 bits, so double arithmetic is exact
+        else if fired && method ≠ 2 && dim ≤ 9 && θ.all (fun t => (t * 16).den == 1) && p != q then "FAIL:exact_on_dyadic"
         else match input with
           | some i => if close tol p i then "ok" else "FAIL:roundtrip"
           | none => "ok"
@@ -145,6 +150,7 @@ def finishS (s : St) (k : Nat) (r : Except Err (Simplex.St F)) (kind : Kind)
     let ans := " ".intercalate t
     -- an operation that raised must leave the object as it was last seen
     let s2 := if ans.startsWith "exc:" then s1 else { s1 with last := s1.last.set! (idx false k) (some ans) }
+    if ans.startsWith "inconsistent-accessors" then (s2, out, "FAIL:accessors_agree") else
     match st, splitTok ";" t with
     | some m, [p, θ] =>
       let v := judgeS m.method m.dim m.allowNull inp p θ
@@ -175,6 +181,8 @@ def finishO (s : St) (k : Nat) (r : Except Err (Simplex.OSt F)) (kind : Kind)
   | some t =>
     let ans := " ".intercalate t
     let s2 := if ans.startsWith "exc:" then s1 else { s1 with last := s1.last.set! (idx true k) (some ans) }
+    if ans.startsWith "inconsistent-accessors" then (s2, out, "FAIL:accessors_agree")
+    else if ans == "sliced" then (s2, out, "FAIL:clone_keeps_type") else
     match st, splitTok ";" t with
     | some m, [v, p, θ] =>
       (s2, out, judgeO m.base.method m.base.dim m.base.allowNull inp v p θ)
